@@ -64,7 +64,7 @@ inline std::string g_run(Tape &t, int maxLen, const char *extra, bool allowPct =
 }
 
 inline std::string g_scheme(Tape &t) {
-  static const std::vector<std::string> pool = {"s", "http", "HTTP", "t", "a+b-c.d", "File", "x1", "Z", "file", "https", "urn", "mailto"};  // incl. names software special-cases
+  static const std::vector<std::string> pool = {"s", "http", "HTTP", "t", "a+b-c.d", "File", "x1", "Z", "file", "https", "urn", "mailto", "URL", "url", "javascript", "data"};  // incl. names software special-cases
   if (t.chance(3, 4)) return t.pick(pool);
   std::string s(1, g_alpha(t));
   int n = t.range(0, 4);
@@ -141,7 +141,9 @@ inline std::string g_host(Tape &t, int *kind = nullptr) {
                                                 "1.2.3", "1.2.3.4.5", "1.2.3.4a", "ex%41mple", "ex%c3%a4", "h%3a", "x-y_z~", "v1.a", "vF.x",
                                                 "%31.2.3.4", "1%2E2.3.4", "10.0.0.%32%35%35", "%32%35%36.1.1.1",  // dotted quads only after percent-decoding
                                                 "%3192.168.100.200", "%32%35%35.255.255.255", "%31%32%37.%30.%30.%31", "%31%2E%32%2E%33%2E%34", "0.0.0.%30", "1.2.3.%34", "%31%30.20.30.40",  // ... of every length from 7 to 15
-                                                "localhost", "LOCALHOST", "locations", "localhos", "localhost.", "%20Host", "a%2FB", "%41", "%7e", "%7b"};  // names software special-cases; a capital right behind a kept escape; one lone escape
+                                                "localhost", "LOCALHOST", "locations", "localhos", "localhost.", "%20Host", "a%2FB", "%41", "%7e", "%7b",
+                                                // registered names that inet_aton / browsers read as IPv4, trailing dots, IDNA look-alikes
+                                                "0x7f.0.0.1", "0x7F.1", "0177.0.0.1", "127.1", "2130706433", "0x7f000001", "1.2.3.0x4", "1.2.3.4.", "example.com.", "1.2.3.04", "xn--bcher-kva.example", "a..b", "-", "1.2.3.4%2e"};  // names software special-cases; a capital right behind a kept escape; one lone escape
   int k = t.weighted({6, 2, 3, 3, 1});
   int kk = 1;
   std::string s;
@@ -288,7 +290,23 @@ inline GenUri g_uri_parts(Tape &t, int flavor = SEG_ANY, int maxSegs = 6) {
   if (u.hasFrag) u.frag = g_queryfrag(t);
   return u;
 }
-inline std::string g_uri(Tape &t, int flavor = SEG_ANY) { return g_uri_parts(t, flavor).text(); }
+// Whole references that other specifications, browsers or "helpful" code treat specially although RFC 3986 reads them
+// like any other: one text in 32. (SEG_NOPCTDOT callers get only the members without percent-encoded dots.)
+inline const std::vector<std::string> &famous_texts() {
+  static const std::vector<std::string> v = {
+      "URL:http://example.com/a", "url:s://h/b", "view-source:http://h/", "javascript:alert(1)", "data:text/plain;base64,AA==", "mailto:a@b.c?subject=x", "urn:isbn:0451450523",
+      "tel:+1-816-555-1212", "news:comp.lang.c", "file:///C:/x/../y", "file:/C:/x", "file://localhost/etc/fstab", "file:///C:/../boot.ini", "file:c:/x", "FILE:///c:/x",
+      "http://0x7f.0.0.1/", "http://0177.0.0.1/", "http://127.1/", "http://2130706433/", "http://1.2.3.4./", "http://example.com./a", "http://h:00080/", "http://h:080/a", "http://h:/a",
+      "http://h/#:~:text=a%2Db", "http://h/a#shipping:~:text=4%2d6%20weeks", "http://h/app/..;x=1/admin", "/a/.;jsessionid=4A/b", "reports/..;jsessionid=1A2B", "http://h/a;v=1/../b",
+      "http://@h/", "http://:@h/", "http://u:@h/", "http://h/?", "http://h/#", "http://h?#", "HTTP://H/%7Euser", "http://h/a+b?c+d=e+f", "http://h/%2B?%2b", "http://h/a%20b/c%2fd",
+      "http://[::ffff:192.0.2.33]/", "http://[64:ff9b::192.0.2.33]:80/", "http://[FEDC:BA98:7654:3210:FEDC:BA98:7654:3210]/", "http://[::1]:/", "//[v1.fe80::a+en1]/",
+      "s://h/a//b", "s://h//", "s:////h/a", "s:/.//a", "s:a/..//b", "?", "#", "//", "///", "./", "../", "./:", ".//a", "a/../..", "http:", "http:a", "http:/a", "http:?q"};
+  return v;
+}
+inline std::string g_uri(Tape &t, int flavor = SEG_ANY) {
+  if (flavor == SEG_ANY && t.below(32) == 31) return t.pick(famous_texts());
+  return g_uri_parts(t, flavor).text();
+}
 
 // ---------------------------------------------------------------------------
 // G_ip6: literal *contents* that are frequently invalid in an instructive way.
